@@ -182,6 +182,97 @@ def operand_grid(S, geps, rng, n_random=12):
     return sorted(x for x in base if abs(x) <= 45000)
 
 
+def limbs(n):
+    "signed little-endian base-10^4 limbs (spec/BigNum.tla)"
+    neg = n < 0
+    n = abs(n)
+    mag = []
+    while n:
+        mag.append(n % 10000)
+        n //= 10000
+    return dict(neg=neg and bool(mag), mag=mag)
+
+
+def big_calls(rng, tier):
+    "the same operators on operands of any sign up to 10^40 (C12/C14 'huge magnitudes'), limb-encoded"
+    out = []
+    cfgs = [('fixed', 0, 0, None), ('fixed', 4, 0, 2), ('fixed', 9, 0, None), ('fixed', 18, 0, 6), ('guarded', 9, 9, None), ('guarded', 18, 9, 20), ('guarded', 4, 0, None)]
+    n = 25 if tier == 'quick' else 300
+    for cls, p, g, d in cfgs:
+        V = setup(cls, p, g, d)
+        S = 10 ** (p + g)
+        geps = max(10 ** g // 2, 1) if cls == 'guarded' else 1
+        de = d_eff(cls, p, g, d)
+        base = dict(big=True, cls=cls, p=p, g=g, d=-1 if d is None else d, dEff=de, Sb=limbs(S), gepsb=limbs(geps), rnd='op', a=limbs(0), b=limbs(0), c=limbs(0),
+                    r=limbs(0), same_cls=True, flags=[False] * 6, unchanged=True, pu=limbs(0), Db=limbs(1), digits_ok=True)
+        mk = lambda x: V(x, True)
+
+        def rec(op, rnd, x, y, z, res, flags=None):
+            r = dict(base)
+            r.update(op=op, rnd=rnd, a=limbs(x), b=limbs(y), c=limbs(z))
+            if flags is not None:
+                r['flags'] = flags
+            else:
+                r['same_cls'] = type(res) is V
+                r['r'] = limbs(getattr(res, '_value', 0))
+            out.append(r)
+
+        def operand():
+            k = rng.choice([1, 3, 9, 10, 18, 27, 40])
+            x = rng.randint(0, 10 ** k)
+            if rng.random() < 0.3:
+                x = rng.choice([S, S - 1, S + 1, 10 ** k, 10 ** k - 1, 2 ** 31, 2 ** 63 + 1])
+            return -x if rng.random() < 0.4 else x
+        for _ in range(n):
+            x, y, z = operand(), operand(), operand()
+            if rng.random() < 0.2:
+                y = x + rng.choice([-geps - 1, -geps, -geps + 1, 0, geps - 1, geps, geps + 1])
+            A, B = mk(x), mk(y)
+            rec('add', 'op', x, y, 0, A + B)
+            rec('sub', 'op', x, y, 0, A - B)
+            rec('neg', 'op', x, 0, 0, -A)
+            rec('abs', 'op', x, 0, 0, abs(A))
+            k = rng.choice([0, 1, -1, 7, 10 ** 9, -(10 ** 12)])
+            rec('mulint', 'op', x, k, 0, A * k)
+            if k:
+                rec('floordivint', 'op', x, k, 0, A // k)
+            rec('cmp', 'op', x, y, 0, None, flags=[A < B, A <= B, A == B, A != B, A > B, A >= B])
+            rec('mul', 'op', x, y, 0, A * B)
+            for rnd in ('down', 'up'):
+                rec('mul', rnd, x, y, 0, V.mul(A, B, round=rnd))
+            if y:
+                rec('div', 'op', x, y, 0, A / B)
+                for rnd in ('down', 'up'):
+                    rec('div', rnd, x, y, 0, V.div(A, B, round=rnd))
+            if z:
+                for rnd in ('down', 'up'):
+                    rec('muldiv', rnd, x, y, z, V.muldiv(A, B, mk(z), round=rnd))
+            # printing
+            s0 = str(A)
+            ps = parse_str(s0)
+            r = dict(base)
+            r.update(op='str', a=limbs(x), unchanged=(A._value == x))
+            if ps is None:
+                r['digits_ok'] = False
+            else:
+                plain = (p + g == 0)
+                zero = (de == 0 and not plain)
+                dd = ps['fd'] + ps['gfd']
+                if zero:
+                    units, D, ok = ps['ip'], 1, (dd == 1 and ps['fr'] == 0)
+                elif plain:
+                    units, D, ok = ps['ip'], 1, dd == 0
+                else:
+                    units = (ps['ip'] * 10 ** ps['fd'] + ps['fr']) * 10 ** ps['gfd'] + ps['gfr']
+                    D = 10 ** dd
+                    ok = dd == de and ((cls == 'guarded' and de > p and ps['fd'] == p and ps['gfd'] == de - p) or (not (cls == 'guarded' and de > p) and ps['gfd'] == 0))
+                r['pu'] = limbs(-units if ps['neg'] else units)
+                r['Db'] = limbs(D)
+                r['digits_ok'] = bool(ok and not (ps['neg'] and units == 0 and False))
+            out.append(r)
+    return out
+
+
 def all_calls(rng, tier):
     calls = []
     ints = [0, 1, -1, 2, 3, -4, 7, 10]
@@ -205,6 +296,9 @@ def all_calls(rng, tier):
     fr = [Fraction(n, dn) for n in (0, 1, -1, 2, 3, -5, 7, 22, -31, 100) for dn in (1, 2, 3, 7, 10, 13)]
     for d in ((0, 3, 5) if tier == 'quick' else (0, 1, 3, 5, 6)):
         calls += rational_calls(d, fr, rng, tier)
+    for c in calls:
+        c['big'] = False
+    calls += big_calls(rng, tier)
     for i, c in enumerate(calls, 1):
         c['id'] = i
     return calls
